@@ -206,7 +206,7 @@ X02_EndToEnd ==
         /\ Range(Inner(FlatAn(wire))) = Rest
 \* ... and only the layer below (or the server's refusal) can make it fail
 X02_HonestFailsOnlyBelow ==
-    (source = "server" /\ cphase = "failed") => (closed # "open" \/ ~Transfers /\ MyDuty # "ixfr-current")
+    (source = "server" /\ cphase = "failed") => (closed # "open" \/ (~Transfers /\ MyDuty # "ixfr-current"))
 
 \* liveness (under FairSpec): a closed stream is concluded; an honest transfer completes unless cut
 X02_Concludes == (closed # "open") ~> (cphase \in Final)
